@@ -669,6 +669,25 @@ func (c *SpecCtx) call(e *SExpr) Val {
 				c.fail("no map-range loop %s in scope", n)
 			}
 			return boolVal(Select(g.C[0], c.evalTerm(args[1])))
+		case "at": // at(mark, e): e evaluated in the state saved by `call mark_<name>` in a harness
+			m, ok := c.ex.marks[args[0].Tok]
+			if !ok {
+				c.fail("unknown mark %s", args[0].Tok)
+			}
+			n := *c
+			if n.vst == nil {
+				n.vst = c.st
+			}
+			n.st = m
+			return n.eval(args[1])
+		case "emptymap": // ghost integer map (total, default 0)
+			return Val{T: tInt, C: []*Term{zeroOfSort(SArr(SInt, SInt))}}
+		case "mapstore":
+			m := c.eval(args[0])
+			return Val{T: tInt, C: []*Term{Store(m.C[0], c.evalTerm(args[1]), c.evalTerm(args[2]))}}
+		case "mapsel":
+			m := c.eval(args[0])
+			return intVal(Select(m.C[0], c.evalTerm(args[1])))
 		case "preexisting": // allocated before the call
 			x := c.eval(args[0])
 			return boolVal(Lt(x.C[0], c.old.ctr))
@@ -681,7 +700,9 @@ func (c *SpecCtx) call(e *SExpr) Val {
 		case "txt": // abstract text of a cue (Item.String())
 			x := c.eval(args[0])
 			return scalar(tString, c.ex.itemText(c.st, x.C[0]))
-		case "str": // named uninterpreted functions: str("name", args...)
+		case "txtv": // abstract text of a cue value (Item passed by value)
+			x := c.eval(args[0])
+			return scalar(tString, c.ex.itemTextOfStruct(c.st, x))
 		}
 		if m, ok := c.ex.P.Macros[fn.Tok]; ok {
 			if len(m.Params) != len(args) {
@@ -693,11 +714,14 @@ func (c *SpecCtx) call(e *SExpr) Val {
 			n := *c
 			n.depth++
 			n.env = make(map[string]Val, len(c.env)+len(args))
+			n.scope = nil
+			if m.Opaque {
+				return c.opaqueMacro(&n, m, args)
+			}
 			// macros see only their parameters (and ghost functions)
 			for i, p := range m.Params {
 				n.env[p.Name] = c.eval(args[i])
 			}
-			n.scope = nil
 			return n.eval(m.Body)
 		}
 		if g, ok := c.ghosts[fn.Tok]; ok {
@@ -753,4 +777,54 @@ func (c *SpecCtx) call(e *SExpr) Val {
 	}
 	c.fail("unknown spec function in %s", e)
 	return Val{}
+}
+
+var opaqueBV = map[string]*Term{}
+var opaquePred = map[int]string{}
+
+// opaqueMacro expands a macro into a state-specific uninterpreted predicate over
+// its scalar (non-reference) parameters, defined by an axiom triggered on its
+// applications only. Identical states yield the same predicate (hash-consing).
+func (c *SpecCtx) opaqueMacro(n *SpecCtx, m *Macro, args []*SExpr) Val {
+	var bvs []*Term
+	var actual []*Term
+	var sorts []Sort
+	for i, p := range m.Params {
+		t := c.resolveType(p.Type)
+		cs := flatten(t)
+		isRef := false
+		switch t.Underlying().(type) {
+		case *types.Pointer, *types.Slice, *types.Map:
+			isRef = true
+		}
+		if isRef || len(cs) != 1 {
+			n.env[p.Name] = c.eval(args[i])
+			continue
+		}
+		key := m.Name + "." + p.Name
+		bv, ok := opaqueBV[key]
+		if !ok {
+			bv = BVar(key, cs[0].Sort)
+			opaqueBV[key] = bv
+		}
+		n.env[p.Name] = scalar(t, bv)
+		bvs = append(bvs, bv)
+		sorts = append(sorts, cs[0].Sort)
+		actual = append(actual, c.evalTerm(args[i]))
+	}
+	savedScope, savedCtr := bvarScope, bvarScopeCtr
+	if bvarScope == "" {
+		bvarScope, bvarScopeCtr = m.Name, 0
+	}
+	body := n.evalBool(m.Body)
+	bvarScope, bvarScopeCtr = savedScope, savedCtr
+	name, ok := opaquePred[body.id]
+	if !ok {
+		name = fmt.Sprintf("op$%s$%d", m.Name, len(opaquePred)+1)
+		opaquePred[body.id] = name
+		DeclareFun(name, sorts, SBool)
+		app := App(name, SBool, bvs...)
+		addAxiomFor(name, Forall(bvs, Eq(app, body), []*Term{app}))
+	}
+	return boolVal(App(name, SBool, actual...))
 }
